@@ -57,9 +57,16 @@ def grid_case(case):
     return r
 
 
-def pend(sign=1.0):
-    def f(t, y, **kw):
-        return sign * np.array([y[1], -np.sin(y[0])], dtype=y.dtype)
+def pend(sign=1.0, kind="pendulum"):
+    if kind == "oscillator":
+        def f(t, y, **kw):
+            return sign * np.array([y[1], -y[0]], dtype=y.dtype)
+    elif kind == "damped":
+        def f(t, y, **kw):
+            return sign * np.array([y[1], -np.sin(y[0]) - 0.5 * y[1]], dtype=y.dtype)
+    else:
+        def f(t, y, **kw):
+            return sign * np.array([y[1], -np.sin(y[0])], dtype=y.dtype)
     return f
 
 
@@ -82,12 +89,13 @@ def invariance_case(case):
     tol = 1e-7
     t0, tf, dt0 = case["t0"], case["tf"], case["dt0"]
     try:
-        base = run_span(name, dtype, pend(), t0, tf, dt0, tol)
+        prob = case.get("prob", "pendulum")
+        base = run_span(name, dtype, pend(kind=prob), t0, tf, dt0, tol)
         if case["kind"] == "shift":
             c = case["c"]
-            other = run_span(name, dtype, pend(), t0 + c, tf + c, dt0, tol)
+            other = run_span(name, dtype, pend(kind=prob), t0 + c, tf + c, dt0, tol)
         else:
-            other = run_span(name, dtype, pend(-1.0), -t0, -tf, dt0, tol)
+            other = run_span(name, dtype, pend(-1.0, kind=prob), -t0, -tf, dt0, tol)
     except de.exception_types.FailedIntegration as e:
         r.n = 1
         if driver.budget_hit(e):
@@ -97,11 +105,13 @@ def invariance_case(case):
         return r
     r.n = 1
     e = driver.eps_of(dtype)
-    exact_family = fam in ("fixed-explicit", "splitting")
+    # 'fixed-step methods' of the statement: explicit, splitting and implicit methods without an embedded estimator.  An autonomous right-hand
+    # side never sees t, so shifted / reflected runs perform the same arithmetic; only the final-step clamp (tf - t) differs by rounding.
+    exact_family = fam in ("fixed-explicit", "splitting", "implicit-fixed")
     yb = np.asarray(base.y, dtype=LD); yo = np.asarray(other.y, dtype=LD)
     if exact_family:
         same_len = len(base) == len(other)
-        thr = 16 * e * max(1.0, float(np.abs(yb).max())) * len(base)
+        thr = (16 if fam != "implicit-fixed" else 1e4) * e * max(1.0, float(np.abs(yb).max())) * len(base)
         err = float(np.abs(yb - yo).max()) if same_len else float("inf")
     else:
         thr = 200 * tol * max(1.0, float(np.abs(yb).max()))
@@ -128,7 +138,7 @@ def run(ctx):
                 "recorded grid compared EXACTLY with the reference grid (dyadic lattice); O2/O3: all 32 methods x spans x shifts {-4, 0.5, 4} / reflection on the pendulum; "
                 "distinct = distinct (section, family, dtype, direction, signs, exactness) classes")
     ctx.assumptions += ["lattice times/steps are multiples of 1/4 with |t| <= 3: every sum the loop forms is exact, so grids are compared with ==",
-                        "shift/reflection: rounding level = 16*eps*scale*rows for fixed-step explicit and splitting methods (bit-identical today), 200*tol for implicit/adaptive (final state)"]
+                        "shift/reflection: rounding level = 16*eps*scale*rows for fixed-step explicit and splitting methods (bit-identical today), 1e4*eps*scale*rows for implicit methods without estimator (1e-13 observed), 200*tol for adaptive ones (final state)"]
     cases = []
     spans = [(a, b) for a in range(-3, 4) for b in range(-3, 4) if a != b]
     k = 0
@@ -152,6 +162,11 @@ def run(ctx):
                     k += 1
                     cases.append(dict(section="inv", kind="shift", method=m, dtype=dn, t0=t0, tf=tf, dt0=0.25, c=c, sample=(k % 211 == 0)))
                 cases.append(dict(section="inv", kind="reflect", method=m, dtype=dn, t0=t0, tf=tf, dt0=0.25))
+                if m in lc.IMPLICIT_FIXED + lc.IMPLICIT_ADAPTIVE and not heavy:
+                    # implicit methods: more steps and two more autonomous problems (the Newton iteration count must vary along the run)
+                    for prob in ("oscillator", "damped"):
+                        for c in (-7.0, 3.0, 100.0):
+                            cases.append(dict(section="inv", kind="shift", method=m, dtype=dn, t0=t0, tf=t0 + 4.0 * (1 if tf > t0 else -1), dt0=0.05, c=c, prob=prob))
     grid.pmap(run_case, cases, ctx, horizon=600)
     ctx.note("cases", total=len(cases))
 
